@@ -64,7 +64,7 @@ BOUND = {'quick': 'n<=4; seq L=7 (request), L=6 x 2 phases (shell), P=3; long N=
                   "3 (shell), long/ext W'=4 (request, 82944 requests) / 3 (shell), multi and shared also over {ok, 1, 2, 5 retries}",
          'thorough': 'n<=4; seq L=9 (request, get, post), L=7 x 3 phases (shell), P=4; long N=2^20+16 (request, get, post) / 2^16+16 (shell), W=10; '
                      'multi M=5 (request) / 4 (shell), lazy and upfront creation; shared S=4; tree: 49 registered query classes + 2 plain paths; wide alphabet '
-                     "(12 outcomes, up to 5 retries): rseq R=5 (request, get, post) / 4 (shell), long/ext W'=5 (request, get, post) / 4 (shell), multi and "
+                     "(12 outcomes, up to 5 retries): rseq R=5 (request, get, post) / 4 (shell), long/ext W'=5 (request) / 4 (get, post, shell), multi and "
                      'shared also over {ok, 1, 2, 5 retries}'}
 ASSUMPTIONS = ['requests.request and sleep are the only environment seams of RpcNode.request',
                'attempts that follow a transient answer (5xx kind temporary / prevalidator.ml) within one call are retries of the same request',
@@ -301,7 +301,7 @@ def run_long(case, r=None):
             word.append(res)
             if bad:
                 out.append((D_LONG if j >= 16 else _plain(long_outcome(j - 1, W, alpha) if j else '-'),
-                            f'n={n} entry={method} one client, outcome words of width {W} over {alpha} back to back: call #{j} (outcome {o}, previous '
+                            f'n={n} entry={method} one client, outcome words of width {W} over the {an} alphabet back to back: call #{j} (outcome {o}, previous '
                             f'{[long_outcome(x, W, alpha) for x in range(max(0, j - 3), j)]}): {bad}; first attempts of the previous requests {s.firsts[c][-6:-1]}'))
                 break
             if len(word) == W:
@@ -508,7 +508,7 @@ def shards(tier, seed):
         for m in (['request', 'shell'] if q else list(DIRECT) + ['shell']):
             N = (2 ** (13 if q else 16) if m == 'shell' else 2 ** (16 if q else 20)) + 16
             sp.append(('long', n, N, m, 8 if q else 10, 'basic'))
-            W = (3 if q else 4) if m == 'shell' else (4 if q else 5)     # EVERY word of width W over the wide alphabet, back to back
+            W = 3 if q and m == 'shell' else 5 if m == 'request' and not q else 4     # EVERY word of width W over the wide alphabet, back to back
             sp.append(('long', n, len(EXT) ** W * W, m, W, 'ext'))
         for part in range(8):
             sp.append(('tree', n, part, 8))
